@@ -116,11 +116,14 @@ def run(rep: Report, repo: Repo, tier: str) -> None:
             rep.check(isinstance(dots, ast.Constant) and dots.value is True, "C16-R1", where, norm(c),
                       "set_args is called without dots=True: dotted destinations such as 'output.directory' are stored as flat keys "
                       "and never override anything", witness="cminx -o out x.cmake")
-            rep.check(c.args and norm(c.args[0]) == "args", "C16-R1", where, "set_args(args, ...)", "set_args does not receive the parsed arguments")
+            parsed = {norm(st_.targets[0]) for st_ in main.body if isinstance(st_, ast.Assign) and isinstance(st_.value, ast.Call)
+                      and isinstance(st_.value.func, ast.Attribute) and st_.value.func.attr in ("parse_args", "parse_known_args")}
+            rep.check(bool(c.args) and norm(c.args[0]) in parsed, "C16-R1", where, f"set_args({norm(c.args[0]) if c.args else ''}, ...)",
+                      "set_args does not receive the namespace returned by parse_args")
         if k == "set_file":
             gs = guards_of(main, c, m.parents)
-            ok = any("args.settings" in norm(g_.test) for g_ in gs)
-            rep.check(ok and c.args and "args.settings" in norm(c.args[0]), "C16-R1", where, norm(c)[:70],
+            ok = any(".settings" in norm(g_.test) for g_ in gs)
+            rep.check(ok and c.args and ".settings" in norm(c.args[0]), "C16-R1", where, norm(c)[:70],
                       "set_file is not driven by the -s argument")
     rep.floor("C16-R1", 5, "source-stacking facts")
 
@@ -281,62 +284,101 @@ def run(rep: Report, repo: Repo, tier: str) -> None:
     rule_output_dir_resolution(rep, repo, "C16-R5")
 
 
-def _calltime_cwd(e: ast.expr, fn: ast.FunctionDef) -> Tuple[bool, str]:
-    """Is `e` os.getcwd() evaluated when the function runs?"""
-    if isinstance(e, ast.Call) and call_name(e) in ("os.getcwd", "os.path.abspath") and (call_name(e) == "os.getcwd" or
-                                                                                       (e.args and norm(e.args[0]) in ("'.'", "os.curdir"))):
-        return True, ""
-    if isinstance(e, ast.Name):
-        from ..model import param_defaults
-        if e.id in param_defaults(fn):
-            return False, (f"`{e.id}` is a parameter whose default `{norm(param_defaults(fn)[e.id])}` is evaluated once, when the module "
-                           f"is imported, not when the run starts")
-        defs = [n.value for n in walk_no_nested(fn) if isinstance(n, ast.Assign) and any(norm(t) == e.id for t in n.targets)]
-        if len(defs) == 1:
-            return _calltime_cwd(defs[0], fn)
-        for m_st in ast.walk(ast.Module(body=[], type_ignores=[])):
-            pass
-        return False, f"`{e.id}` is not the working directory at call time"
-    return False, f"`{norm(e)[:40]}` is not os.getcwd()"
-
-
 def rule_output_dir_resolution(rep: Report, repo: Repo, rule: str) -> None:
+    """Decided on the abstract evaluation of config_template (both values of the flag), so that an if/else, a conditional
+    expression or a local alias are all read the same way."""
+    from ..absint import Evaluator, const, glob, is_const, show
+    from ..model import func_params, param_defaults
     rep.rule(rule, "relative_to_config selects Filename(in_source_dir=True), otherwise Filename(cwd=<os.getcwd() at call time>); main "
                    "reads the flag before validation and passes it to config_template")
     main = repo.func(MOD, "main")
     where = f"{MOD}:main"
-    tdict, tfn = template_dict(repo)
-    titems = {sec: dict_items(v) if isinstance(v, ast.Dict) else None for sec, v in dict_items(tdict).items()}
-    out_t = titems.get("output") or {}
-    v = out_t.get("directory")
-    ok5 = False
-    why = "the output directory template is not an Optional(Filename(...)) that switches on the relative_to_config flag"
-    desc = norm(v) if v is not None else "missing"
-    if isinstance(v, ast.Call) and call_name(v).split(".")[-1] == "Optional" and v.args and isinstance(v.args[0], ast.IfExp):
-        ife = v.args[0]
-        flag = tfn.args.args[0].arg if tfn.args.args else None
-        test = norm(ife.test)
-        pos, neg = (ife.orelse, ife.body) if test == f"not {flag}" else ((ife.body, ife.orelse) if test == flag else (None, None))
-        if pos is not None:
-            def kw(call, name):
-                return next((k.value for k in call.keywords if k.arg == name), None) if isinstance(call, ast.Call) else None
-            src_ok = isinstance(pos, ast.Call) and call_name(pos).endswith("Filename") and \
-                isinstance(kw(pos, "in_source_dir"), ast.Constant) and kw(pos, "in_source_dir").value is True and kw(pos, "cwd") is None
-            cwd_e = kw(neg, "cwd")
-            cwd_ok, cwd_why = (False, "no cwd= argument") if cwd_e is None else _calltime_cwd(cwd_e, tfn)
-            neg_ok = isinstance(neg, ast.Call) and call_name(neg).endswith("Filename") and cwd_ok and kw(neg, "in_source_dir") is None
+    tfn = repo.func("cminx.config", "config_template")
+    params = func_params(tfn)
+    if not params:
+        rep.bad(rule, "cminx.config:config_template", "signature", "config_template takes no relative_to_config flag")
+        return
+    flag = params[0]
+    ev = Evaluator(repo, "cminx.config")
+    outs = ev.run_function(tfn, {p: ("sym", "param:" + p) for p in params})
+    FLAG = ("sym", "param:" + flag)
+    cases = {}
+
+    def dict_get(d, key):
+        if d[0] == "dict":
+            for k, v in d[1:]:
+                if k == const(key):
+                    return v
+        return None
+
+    for o in outs:
+        if o.kind != "return":
+            continue
+        val = o.value()
+        outd = dict_get(val, "output") if val[0] == "dict" else None
+        dirv = dict_get(outd, "directory") if outd is not None else None
+        if dirv is None:
+            raise AnalysisError("config_template does not return a dict display with output.directory")
+        truth = None
+        for a_, v_ in o.conds:
+            if a_[0] == "truthy" and a_[1] == FLAG:
+                truth = v_
+        inner = dirv
+        if inner[0] == "call" and inner[1][0] == "global" and inner[1][1].endswith("Optional") and inner[2]:
+            inner = inner[2][0]
+        else:
+            rep.bad(rule, "cminx.config:config_template", show(dirv)[:90], "output.directory is not Optional(...): a run without -o fails validation")
+            continue
+        if inner[0] == "ifexp":
+            c = inner[1]
+            pol = True
+            while c[0] == "not":
+                c, pol = c[1], not pol
+            if c == FLAG:
+                cases[pol] = inner[2]
+                cases[not pol] = inner[3]
+            else:
+                cases[None] = inner
+        else:
+            cases[truth] = inner
+    desc = "; ".join(f"flag={k}: {show(v)[:60]}" for k, v in cases.items())
+
+    def filename_kwargs(t):
+        if t[0] == "call" and t[1][0] == "global" and t[1][1].endswith("Filename"):
+            return dict(t[3]), t[2]
+        return None, None
+
+    ok5, why = False, "the output directory template does not switch on the relative_to_config flag"
+    if True in cases and False in cases:
+        kw_t, pos_t = filename_kwargs(cases[True])
+        kw_f, pos_f = filename_kwargs(cases[False])
+        if kw_t is None or kw_f is None:
+            why = "output.directory is not validated as a confuse.Filename"
+        else:
+            src_ok = kw_t.get("in_source_dir") == const(True) and "cwd" not in kw_t and not pos_t
+            cwd_t = kw_f.get("cwd")
+            cwd_ok = cwd_t == ("call", glob("os.getcwd"), (), ())
+            cwd_why = ""
+            if cwd_t is not None and cwd_t[0] == "sym" and cwd_t[1].startswith("param:"):
+                pn = cwd_t[1][6:]
+                d = param_defaults(tfn).get(pn)
+                cwd_why = (f"cwd is the parameter `{pn}` whose default `{norm(d) if d is not None else None}` is evaluated once, when the "
+                           f"module is imported, not when the run starts (and main does not pass it)")
+            elif not cwd_ok:
+                cwd_why = f"cwd is `{show(cwd_t) if cwd_t else None}`, not os.getcwd()"
+            neg_ok = cwd_ok and "in_source_dir" not in kw_f and not pos_f
             ok5 = src_ok and neg_ok
             if not src_ok:
-                why = "with relative_to_config the directory is not resolved against the configuration file's directory"
+                why = ("with relative_to_config the directory is not resolved against the configuration file's directory"
+                       + (" (an explicit cwd wins over in_source_dir in confuse)" if "cwd" in kw_t else ""))
             elif not neg_ok:
-                why = f"without relative_to_config the directory is not resolved against the current working directory: {cwd_why}"
-    elif isinstance(v, ast.Call) and call_name(v).split(".")[-1] == "Optional" and v.args and isinstance(v.args[0], ast.Call):
-        inner = v.args[0]
-        kws = {k.arg: norm(k.value) for k in inner.keywords}
-        if "cwd" in kws and "in_source_dir" in kws:
+                why = "without relative_to_config the directory is not resolved against the working directory of the run: " + cwd_why
+    elif None in cases:
+        kw_n, _p = filename_kwargs(cases[None]) if cases[None][0] == "call" else (None, None)
+        if kw_n is not None and "cwd" in kw_n and "in_source_dir" in kw_n:
             why = ("Filename(cwd=..., in_source_dir=flag): in confuse an explicit cwd wins over in_source_dir, so relative_to_config "
                    "is silently ignored")
-    rep.check(ok5, rule, "cminx.config:config_template", desc[:110],
+    rep.check(ok5, rule, "cminx.config:config_template", desc[:150],
               "a relative output directory is not resolved as the settings prescribe: " + why,
               witness="relative -o after a chdir / -s dir/conf.yaml with output.directory: out and relative_to_config: true")
     cfg_var = None
